@@ -39,6 +39,13 @@
 //!   permuted order, and response bodies that hold, right after a cut point, the byte image of a response frame for ANOTHER
 //!   in-flight id. Many connections, each with its own fake server thread, run in parallel. Every call returns exactly its own
 //!   response; none fails while the peer never broke the connection.
+//! * `hostile-header` (c04_hostile.rs): well-framed frames (magic, consistent lengths) with unusual `version`, `reserved`, format
+//!   codes and `ec` among the genuine answers, the unknown-id frames, the duplicates and the pushes; the variants used are those
+//!   the library's public decoders accept (run-time probe). Such a frame concerns the call it is addressed to, or nobody: every
+//!   call whose own answer was ordinary returns exactly that answer.
+//! * `long-history` (c04_history.rs): one connection per client through calls that timed out / were cancelled / failed locally
+//!   (responses never, much later, twice), then 330 ordinary calls, 65 000 id-drawing notifies, 270 more ordinary calls across
+//!   2^16: every answered call returns its own response; a lost one is proven by the reader's probe events, not by time.
 //!
 //! The verdict is computed offline over the recorded history of a scenario (`judge`).
 
@@ -98,6 +105,12 @@ mod imp {
     static SENTINEL_SEEN: AtomicU64 = AtomicU64::new(0);
     static DELAYS_APPLIED: AtomicU64 = AtomicU64::new(0);
     static PROBE_HITS: [AtomicU64; 8] = [const { AtomicU64::new(0) }; 8];
+    /// `long-history` family: one event log per client kind (blocking, async, ws) while that kind's flag is set, so that
+    /// three connections whose ids all start at 1 can run in parallel; nothing goes to `LOG` then
+    static KLOG: [Mutex<Vec<(u8, u64)>>; 3] = [const { Mutex::new(Vec::new()) }; 3];
+    static KLOG_REC: [AtomicBool; 3] = [const { AtomicBool::new(false) }; 3];
+    /// events of that client kind are not logged at all (tens of thousands of notify requests that only draw ids)
+    static KLOG_MUTE: [AtomicBool; 3] = [const { AtomicBool::new(false) }; 3];
 
     const P_REGISTERED: u8 = 1;
     const P_WRITE_LOCKED: u8 = 2;
@@ -128,6 +141,14 @@ mod imp {
             return;
         }
         PROBE_HITS[code as usize].fetch_add(1, Ordering::Relaxed);
+        let ki = if point.starts_with("client.") { 0 } else if point.starts_with("async_client.") { 1 } else { 2 };
+        if KLOG_MUTE[ki].load(Ordering::Relaxed) {
+            return;
+        }
+        if KLOG_REC[ki].load(Ordering::Relaxed) {
+            KLOG[ki].lock().unwrap_or_else(|e| e.into_inner()).push((code, id));
+            return;
+        }
         LOG.lock().unwrap_or_else(|e| e.into_inner()).push((code, id));
         if GATE_ARMED.load(Ordering::Acquire) {
             gate_pass(code, id);
@@ -2797,6 +2818,12 @@ mod imp {
     mod trickle {
         include!("c04_trickle.rs");
     }
+    mod hostile {
+        include!("c04_hostile.rs");
+    }
+    mod history {
+        include!("c04_history.rs");
+    }
 
     pub fn run(args: &Args) -> Report {
         let rep = Report::new(
@@ -2820,6 +2847,12 @@ mod imp {
              header / at the boundaries / inside query and body with pauses of 1 ms .. 1.4 s between the pieces (stalls above 1.1 s inside one frame; WebSocket: \
              continuation fragments, pings between fragments, TCP-level cuts), bodies holding the image of a response frame for another in-flight id right after \
              a cut: every call returns exactly the response sent for its id (value / header, query and body bytes), no call fails while the peer never closed; \
+             hostile-header: well-framed frames with unusual version / reserved / query_format / body_format / ec (only variants the public decoders accept) as \
+             answers, unknown-id frames, duplicates and pushes (in-flight and unknown ids) while ordinary calls are in flight: a call whose own answer was ordinary \
+             returns exactly it, a call addressed by an unusual frame returns an error or its own response, never another frame's content; \
+             long-history: per client one connection through calls that timed out / were cancelled / failed locally with responses never, much later or twice, then \
+             600 ordinary sequential and concurrent calls with 65 000 id-drawing notifies in between (ids across 2^8 and 2^16, all residues mod 64/128/256): every \
+             answered call returns its own response, all ids distinct, a response the reader consumed without delivering is shown by probe events; \
              distinct = reply scripts + probe-order interleavings",
         );
         let rt = match tokio::runtime::Builder::new_multi_thread().worker_threads(4).enable_all().thread_name("c04-rt").build() {
@@ -2869,7 +2902,7 @@ mod imp {
             });
             match v.as_ref().and_then(|v| Some((v.get("family")?.as_str()?.to_string(), v.get("index")?.as_u64()?, v.get("seed")?.as_u64()?))) {
                 Some((fam, idx, seed)) if seed == args.seed => {
-                    let fam = ["perm6", "perm6+extras", "random", "bigbatch", "forward", "reuse-window", "no-subscriber", "unmatched-run", "batch-connection-loss", "trickle"].into_iter().find(|f| *f == fam).unwrap_or("random");
+                    let fam = ["perm6", "perm6+extras", "random", "bigbatch", "forward", "reuse-window", "no-subscriber", "unmatched-run", "batch-connection-loss", "trickle", "hostile-header", "long-history"].into_iter().find(|f| *f == fam).unwrap_or("random");
                     st.only = Some((fam, idx));
                     st.rep.set("replay_of", json!({"family": fam, "index": idx}));
                 }
@@ -2887,7 +2920,7 @@ mod imp {
         // several requests; the same sizes on the async and the WebSocket client
         // development stages: `--stage unmatched-run` / `--stage batch-connection-loss` run that one family alone, with a
         // ten times larger budget (many-seed soundness runs of the two families); `--stage main` runs everything
-        let solo: Option<&str> = ["unmatched-run", "batch-connection-loss", "trickle"].into_iter().find(|f| *f == args.stage);
+        let solo: Option<&str> = ["unmatched-run", "batch-connection-loss", "trickle", "hostile-header", "long-history"].into_iter().find(|f| *f == args.stage);
         if let Some(f) = solo {
             st.rep.set("solo_family", json!(f));
         }
@@ -2983,6 +3016,22 @@ mod imp {
             trickle::run_family(&mut st, args, &mut index);
         }
         st.rep.set("wall_ms_family_trickle", json!(t_family.elapsed().as_millis() as u64));
+
+        // (0h) well-framed frames with unusual header fields (version, reserved, formats, ec) among the answers, the unknown-id
+        // frames, the duplicates and the pushes: they concern the call they are addressed to, or nobody
+        let t_family = Instant::now();
+        if solo.is_none() || solo == Some("hostile-header") {
+            hostile::run_family(&mut st, args, &mut index);
+        }
+        st.rep.set("wall_ms_family_hostile_header", json!(t_family.elapsed().as_millis() as u64));
+
+        // (0i) hundreds of ordinary calls on one connection after calls that timed out / were cancelled / failed locally and
+        // whose responses never arrive, arrive much later or twice; id counter across 2^8 and 2^16
+        let t_family = Instant::now();
+        if solo.is_none() || solo == Some("long-history") {
+            history::run_family(&mut st, args, &mut index);
+        }
+        st.rep.set("wall_ms_family_long_history", json!(t_family.elapsed().as_millis() as u64));
 
         // (a) exhaustive: every reply order for 6 concurrent calls, each client kind, calls and batch
         let reps = if solo.is_some() { 0 } else { args.budget(2, 20).max(1) };
